@@ -1,7 +1,248 @@
-//! C06 — not built yet (stub keeps the registry stable while modules are written in parallel).
+//! C06 — hot-swapping an unchanged program is inaudible.
 
-use crate::engine::case::Prop;
+use crate::engine::case::*;
+use crate::engine::rng::hash64;
+use crate::engine::tape::Gen;
+use crate::gens::prog::{self, Layout, PG};
+use crate::props::c01::{self, gen_inputs, line_candidates};
+use crate::runners::exec::{canon, Inputs};
+use crate::runners::swap::{run_vm_history, run_wasm_history, SwapOut};
+use serde_json::{json, Value};
+
+pub struct C06;
 
 pub fn prop() -> Option<&'static dyn Prop> {
-    None
+    Some(&C06)
+}
+
+
+struct Out {
+    fail: Option<(String, String)>,
+    discard: Option<String>,
+    state_matters: bool,
+    ran: bool,
+}
+
+fn flat(steps: &[Vec<Vec<u64>>]) -> Vec<Vec<u64>> {
+    steps.iter().flatten().cloned().collect()
+}
+
+fn same(a: &[Vec<u64>], b: &[Vec<u64>]) -> Option<(usize, usize)> {
+    for (t, (x, y)) in a.iter().zip(b.iter()).enumerate() {
+        if x.len() != y.len() {
+            return Some((t, usize::MAX));
+        }
+        for ch in 0..x.len() {
+            if canon(x[ch]) != canon(y[ch]) {
+                return Some((t, ch));
+            }
+        }
+    }
+    if a.len() != b.len() { Some((a.len().min(b.len()), usize::MAX)) } else { None }
+}
+
+fn check(src: &str, inputs: &Inputs, splits: &[u64], backend: &str) -> Out {
+    let mut o = Out { fail: None, discard: None, state_matters: false, ran: false };
+    let total: u64 = splits.iter().sum();
+    let run = |h: &[(String, u64)], start: u64| if backend == "vm" { run_vm_history(h, inputs, start) } else { run_wasm_history(h, inputs, start) };
+    // uninterrupted reference run
+    let base = match run(&[(src.to_string(), total)], 0) {
+        SwapOut::Ran { steps, .. } => flat(&steps),
+        SwapOut::FirstRejected | SwapOut::NoIo => {
+            o.discard = Some("not-compilable".into());
+            return o;
+        }
+        other => {
+            // crashes of a plain run are C03's subject
+            o.discard = Some(format!("plain-run:{}", kind(&other)));
+            return o;
+        }
+    };
+    o.ran = true;
+    // run with swaps to fresh compilations of the same source
+    let hist: Vec<(String, u64)> = splits.iter().map(|n| (src.to_string(), *n)).collect();
+    match run(&hist, 0) {
+        SwapOut::Ran { steps, swapped } => {
+            if swapped.iter().any(|s| !*s) {
+                o.fail = Some((format!("c06:{backend}:recompile-failed"), "a fresh compilation of the running source failed".into()));
+                return o;
+            }
+            let got = flat(&steps);
+            if let Some((t, ch)) = same(&base, &got) {
+                let k = {
+                    let mut acc = 0;
+                    let mut idx = 0;
+                    for (i, n) in splits.iter().enumerate() {
+                        acc += n;
+                        if (t as u64) < acc {
+                            idx = i;
+                            break;
+                        }
+                    }
+                    idx
+                };
+                let (x, y) = (base.get(t).and_then(|w| w.get(ch)).copied().unwrap_or(0), got.get(t).and_then(|w| w.get(ch)).copied().unwrap_or(0));
+                o.fail = Some((format!("c06:{backend}:discontinuity"), format!("sample {t} (segment {k} of splits {splits:?}) channel {ch}: uninterrupted {:?}, with swaps {:?}", f64::from_bits(x), f64::from_bits(y))));
+                return o;
+            }
+        }
+        SwapOut::Panic(stage, p) => {
+            o.fail = Some((format!("c06:{backend}:panic:{}:{}", stage.split('#').next().unwrap_or(""), p.signature()), format!("{stage}: {}", p.describe())));
+            return o;
+        }
+        SwapOut::SwapRefused(k, why) => {
+            o.fail = Some((format!("c06:{backend}:swap-refused"), format!("swap {k}: {why}")));
+            return o;
+        }
+        SwapOut::Error(e) => {
+            o.fail = Some((format!("c06:{backend}:error"), e));
+            return o;
+        }
+        SwapOut::FirstRejected | SwapOut::NoIo => {}
+    }
+    // does the carried state matter?  a fresh start at the first split must sound different
+    let n0 = splits[0];
+    if n0 > 0 && n0 < total {
+        if let SwapOut::Ran { steps, .. } = run(&[(src.to_string(), total - n0)], n0) {
+            let fresh = flat(&steps);
+            o.state_matters = same(&base[n0 as usize..], &fresh).is_some();
+        }
+    }
+    o
+}
+
+fn kind(s: &SwapOut) -> &'static str {
+    match s {
+        SwapOut::Ran { .. } => "ran",
+        SwapOut::FirstRejected => "rejected",
+        SwapOut::NoIo => "no-io",
+        SwapOut::Panic(..) => "panic",
+        SwapOut::SwapRefused(..) => "refused",
+        SwapOut::Error(..) => "error",
+    }
+}
+
+fn finish(src: &str, inputs: &Inputs, splits: &[u64], backend: &str, classes: Vec<String>, cx: &Cx) -> CaseResult {
+    let key = format!("{src}\u{1}{}\u{1}{splits:?}\u{1}{backend}", inputs.describe());
+    let hash = hash64(key.as_bytes());
+    let direct = json!({"text": src, "input_kind": inputs.kind, "input_scale": inputs.scale, "splits": splits, "backend": backend});
+    if cx.dry {
+        let mut r = CaseResult::discard("dry");
+        r.render = Some(direct.clone());
+        r.direct = Some(direct);
+        return r;
+    }
+    let o = check(src, inputs, splits, backend);
+    if let Some(w) = o.discard {
+        return CaseResult::discard(w);
+    }
+    let mut r = match &o.fail {
+        Some((s, m)) => CaseResult::fail(hash, s.clone(), m.clone()),
+        None => CaseResult::held(hash),
+    };
+    r.classes = classes;
+    r.classes.push(format!("backend:{backend}"));
+    r.classes.push(format!("swaps:{}", splits.len() - 1));
+    if splits[0] == 0 {
+        r.classes.push("swap-at-0".into());
+    }
+    if o.state_matters {
+        r.classes.push("state-matters".into());
+    }
+    r.nontrivial = o.state_matters || r.is_fail();
+    if cx.render || r.is_fail() {
+        r.render = Some(direct.clone());
+    }
+    r.direct = Some(direct);
+    r
+}
+
+impl Prop for C06 {
+    fn id(&self) -> &'static str {
+        "C06"
+    }
+    fn spaces(&self, tier: Tier) -> Vec<Space> {
+        match tier {
+            Tier::Quick => vec![
+                Space { name: "vm", size: 1500, exhaustive: false, chunk: 50, case_timeout_s: 60.0, what: "generated stateful programs x split points x 1-4 swaps on the VM" },
+                Space { name: "wasm", size: 400, exhaustive: false, chunk: 10, case_timeout_s: 120.0, what: "the same on the WASM runtime (payload built by the CLI's own builder)" },
+            ],
+            Tier::Thorough => vec![
+                Space { name: "vm", size: 50_000, exhaustive: false, chunk: 200, case_timeout_s: 60.0, what: "generated stateful programs x split points x 1-4 swaps on the VM" },
+                Space { name: "wasm", size: 12_000, exhaustive: false, chunk: 40, case_timeout_s: 120.0, what: "the same on the WASM runtime (payload built by the CLI's own builder)" },
+            ],
+        }
+    }
+    fn run(&self, space: &str, _index: u64, g: &mut Gen, cx: &Cx) -> CaseResult {
+        let (mut cfg, off) = c01::pcfg(cx);
+        // the statement's domain: signal state in self/mem/delay reachable from dsp
+        cfg.makers = false;
+        // globals are re-initialised by re-running main at swap time: a global computed from `now`
+        // legitimately changes, so globals are left out of this property's programs
+        cfg.globals = false;
+        cfg.max_fns = 4;
+        let mut pg = PG::new(g, cfg);
+        let p = pg.program();
+        let feat = pg.feat.clone();
+        let src = prog::render(&p, &Layout::default());
+        let inputs = gen_inputs(g);
+        let k = g.int(1, 4) as usize;
+        let mut splits: Vec<u64> = vec![];
+        let first = g.int(0, 12) as u64;
+        splits.push(first);
+        for _ in 0..k {
+            splits.push(g.int(1, 12) as u64);
+        }
+        let mut r = finish(&src, &inputs, &splits, space, feat.classes(), cx);
+        for id in off {
+            r.count(&format!("generator_switch_off:{id}"), 1);
+        }
+        r
+    }
+    fn run_direct(&self, input: &Value, cx: &Cx) -> Option<CaseResult> {
+        let t = input.get("text")?.as_str()?;
+        let inputs = Inputs { kind: input.get("input_kind").and_then(|v| v.as_u64()).unwrap_or(1) as u8, scale: input.get("input_scale").and_then(|v| v.as_f64()).unwrap_or(1.0) };
+        let splits: Vec<u64> = input.get("splits")?.as_array()?.iter().filter_map(|v| v.as_u64()).collect();
+        let backend = input.get("backend").and_then(|v| v.as_str()).unwrap_or("vm").to_string();
+        if splits.len() < 2 {
+            return None;
+        }
+        Some(finish(t, &inputs, &splits, &backend, vec![], cx))
+    }
+    fn shrink_direct(&self, input: &Value) -> Vec<Value> {
+        let Some(t) = input.get("text").and_then(|v| v.as_str()) else { return vec![] };
+        let mut out = vec![];
+        if let Some(sp) = input.get("splits").and_then(|v| v.as_array()) {
+            let sp: Vec<u64> = sp.iter().filter_map(|v| v.as_u64()).collect();
+            if sp.len() > 2 {
+                let mut v = input.clone();
+                v["splits"] = json!(sp[..sp.len() - 1].to_vec());
+                out.push(v);
+            }
+            for i in 0..sp.len() {
+                if sp[i] > 1 {
+                    let mut s2 = sp.clone();
+                    s2[i] = sp[i] / 2;
+                    let mut v = input.clone();
+                    v["splits"] = json!(s2);
+                    out.push(v);
+                }
+            }
+        }
+        for s in line_candidates(t).into_iter().chain(crate::engine::shrink::text_candidates(t)) {
+            let mut v = input.clone();
+            v["text"] = json!(s);
+            out.push(v);
+        }
+        out
+    }
+    fn rule(&self) -> String {
+        "Cases are (program, input stream, split points n0,n1,..,nk with 1-4 swaps, backend). Programs come from the core-language generator without closures that hold state created by main (the statement's domain: state in self/mem/delay reachable from dsp). Oracle (metamorphic): run n0 samples, hot-swap to a fresh compilation of the same source through DspRuntime::try_hot_swap (VM: emit_bytecode on the same compiler context; WASM: payload from the CLI's own prewarm/patch-plan builder), run n1 more, ... — every output word must equal the uninterrupted run of n0+..+nk samples with time continuing; try_hot_swap returning false or panicking is a failure. Non-trivial = the carried state matters: a fresh start at the first split sounds different from the uninterrupted run.".into()
+    }
+    fn assumptions(&self) -> Vec<String> {
+        vec!["the WASM payload is built in-process by mimium_cli::verif_prepare_wasm_hot_swap (hook) = the private FileRunner::{try_prewarm_wasm_global_state, build_required_state_patch_plan}; the CLI's subprocess path (new skeleton = None) is out of reach".into()]
+    }
+    fn required_classes(&self, _tier: Tier) -> Vec<&'static str> {
+        vec!["backend:vm", "backend:wasm", "state-matters", "swaps:1", "swaps:3", "f:delay", "f:self", "f:mem", "f:stateful-call"]
+    }
 }
